@@ -4,7 +4,7 @@
 use crate::h::*;
 use vsched::rt;
 
-pub const OPS: &[&str] = &["D", "Dn", "Dx", "S", "Sn", "T", "FDa", "FDd", "FDs", "FSa", "FSx", "AF", "FDx"];
+pub const OPS: &[&str] = &["D", "Dn", "Dx", "S", "Sn", "T", "FDa", "FDd", "FDs", "FSa", "FSx", "AF", "FDx", "FDk"];
 
 pub fn op_code(name: &str) -> i64 {
     OPS.iter().position(|o| *o == name).unwrap() as i64
@@ -51,6 +51,22 @@ fn run_op(w: &std::sync::Arc<World>, o: &Obj, x: &Obj, code: i64, tag: &str, gat
         "FSx" => w.future_sync(o, &name, Body::gated(gate)).poll_then_drop(1),
         "AF" => w.after(o, &name, gate, Body::plain()).detach(),
         "FDx" => w.future_desync(o, &name, Body::gated(gate)).poll_then_drop(1),
+        "FDk" => {
+            // polled once, then kept without being polled again or dropped until everything has gone quiet
+            let mut h = w.future_desync(o, &name, Body::gated(gate));
+            let mut f = Box::pin(h.fut.take().unwrap());
+            let (wk, _c) = counting_waker();
+            let mut cx = futures::task::Context::from_waker(&wk);
+            use std::future::Future;
+            match f.as_mut().poll(&mut cx) {
+                futures::task::Poll::Ready(r) => {
+                    if r != Ok(h.token) {
+                        rt::violation(format!("FUTURE-RESULT {} resolved to the wrong value", name));
+                    }
+                }
+                _ => w.kept.lock().unwrap().push((f, h.token, h.op, name.clone())),
+            }
+        }
         _ => unreachable!(),
     }
 }
@@ -111,6 +127,19 @@ fn prog(cfg: &Cfg) {
         }
     }
     rt::quiesce();
+    // futures that were polled once and left alone: with a pool thread around their operations have completed all the same
+    let kept: Vec<_> = std::mem::take(&mut *w.kept.lock().unwrap());
+    for (f, token, op, name) in kept {
+        if pool > 0 && cfg.opt("late", 0) == 0 && w.rec.get(op).ends.is_empty() {
+            rt::violation(format!("STRANDED {} was polled once and then left alone: a pool thread was available but the operation never completed", name));
+        }
+        let prev = rt::note(&format!("in:await-fd {}", name));
+        let r = block_on(f);
+        rt::note(&prev);
+        if r != Ok(token) {
+            rt::violation(format!("FUTURE-RESULT {} (polled once, awaited late) resolved to the wrong value", name));
+        }
+    }
     if pool == 0 {
         // with no pool threads queued work is carried by callers: kick both objects
         // (twice: work scheduled from inside a job that the first kick ran lands behind that kick)
